@@ -1120,18 +1120,20 @@ impl<'a, R: Read + Seek> BlocksToFileReader<'a, R> {
 impl<T: Read + Seek> Read for BlocksToFileReader<'_, T> {
     fn read(&mut self, into: &mut [u8]) -> io::Result<usize> {
         let (remaining, count) = match self.state {
-            BlocksToFileReaderState::Ready => {
+            // Blocks of other files and empty blocks are skipped in a loop: their
+            // number is only bounded by the archive size
+            BlocksToFileReaderState::Ready => loop {
                 // Start a new block FileContent
                 match ArchiveFileBlock::from(&mut self.src)? {
                     ArchiveFileBlock::FileContent { length, id, .. } => {
                         if id != self.id {
                             self.move_to_next_block()?;
-                            return self.read(into);
+                            continue;
                         }
                         if length == 0 {
                             // Empty block: it holds no data, and returning 0
                             // here would wrongly signal the end of the file
-                            return self.read(into);
+                            continue;
                         }
                         let count = self.src.by_ref().take(length).read(into)?;
                         let length_usize = usize::try_from(length).map_err(|_| {
@@ -1140,12 +1142,12 @@ impl<T: Read + Seek> Read for BlocksToFileReader<'_, T> {
                                 "Length conversion failed",
                             )
                         })?;
-                        (length_usize - count, count)
+                        break (length_usize - count, count);
                     }
                     ArchiveFileBlock::EndOfFile { id, .. } => {
                         if id != self.id {
                             self.move_to_next_block()?;
-                            return self.read(into);
+                            continue;
                         }
                         self.state = BlocksToFileReaderState::Finish;
                         return Ok(0);
@@ -1153,7 +1155,7 @@ impl<T: Read + Seek> Read for BlocksToFileReader<'_, T> {
                     ArchiveFileBlock::FileStart { id, .. } => {
                         if id != self.id {
                             self.move_to_next_block()?;
-                            return self.read(into);
+                            continue;
                         }
                         return Err(Error::WrongReaderState(
                             "[BlocksToFileReader] Start with a wrong block type".to_string(),
@@ -1167,7 +1169,7 @@ impl<T: Read + Seek> Read for BlocksToFileReader<'_, T> {
                         .into());
                     }
                 }
-            }
+            },
             BlocksToFileReaderState::InFile(remaining) => {
                 let count = self.src.by_ref().take(remaining as u64).read(into)?;
                 (remaining - count, count)
